@@ -30,6 +30,40 @@ func protocolMore(t *testing.T, bind *Binding, job *Job, p *sdl.Program, acc *st
 		for _, s := range sweepSpecs(p, job, SpecData{}) {
 			do(s)
 		}
+	case "C20":
+		// racesim: real parallelism (waves), the race detector is the oracle
+		var comps, closers []string
+		for _, i := range p.Instances {
+			comps = append(comps, p.NameOf(i))
+			if p.TypeByName(i.Type).Role == "closer" {
+				closers = append(closers, i.ID)
+			}
+		}
+		for k := 0; k < job.K; k++ {
+			s := SpecData{Parallel: true, Close: true, ForceOrd: -1, Sched: "parallel", Seed: mix(mix(job.Seed, p.Seed), uint64(k))}
+			if k%2 == 0 {
+				// several scanner invocations fail in the same round
+				for _, sc := range p.Scanners {
+					n := 0
+					for ci, name := range comps {
+						if mix(mix(p.Seed, uint64(k)), uint64(ci))%100 < 35 {
+							s.Faults = append(s.Faults, "scan:"+sc.ID+"@"+name+"#*")
+							n++
+						}
+					}
+					if n < 2 && len(comps) >= 2 {
+						s.Faults = append(s.Faults, "scan:"+sc.ID+"@"+comps[0]+"#*", "scan:"+sc.ID+"@"+comps[1]+"#*")
+					}
+				}
+			} else {
+				for ci, c := range closers {
+					if mix(mix(p.Seed, uint64(k)), uint64(ci))%100 < 50 {
+						s.Faults = append(s.Faults, "close:"+c+"#*")
+					}
+				}
+			}
+			do(s)
+		}
 	case "C11":
 		for _, s := range sweepSpecs(p, job, SpecData{}) {
 			do(s)
@@ -150,6 +184,8 @@ func nonTrivialMore(prop string, w *model.World, out *model.Outcome, o *model.Ob
 		return len(w.P.Procs) >= 2 || countKind(o, "run") >= 2 || countKind(o, "load") >= 2
 	case "C13":
 		return countKind(o, "run") >= 1
+	case "C20":
+		return o.MaxParked >= 2
 	case "C11":
 		for _, t := range w.P.Types {
 			for _, pt := range t.Points {
@@ -207,6 +243,15 @@ func checkOther(t *testing.T, bind *Binding, job *Job, res *Result, acc *statAcc
 	switch job.Property {
 	case "C04":
 		regsimBatch(job, int(param(job, "regsimTrees", 30)), acc, res)
+	case "C20":
+		if param(job, "linsim", 0) != 0 {
+			if bind.Lin == nil {
+				res.Error = "linsim: the batch was built without the instrumented utilities"
+				return true
+			}
+			linsimBatch(bind.Lin, job, int(param(job, "linCases", 4000)), acc, res)
+			return true
+		}
 	}
 	return false
 }
@@ -215,6 +260,11 @@ func replayOther(t *testing.T, bind *Binding, c *Case, job *Job) []model.Violati
 	switch c.Engine {
 	case "regsim":
 		return replayRegsim(c)
+	case "linsim":
+		if bind.Lin == nil {
+			return nil
+		}
+		return replayLinsim(bind.Lin, c)
 	}
 	return nil
 }
